@@ -1,2 +1,3 @@
 import Preflate.Props.C04
 #print axioms Preflate.gen_eq_ref
+#print axioms Preflate.decStream_encStream
